@@ -919,13 +919,10 @@ def classify(f: dict, d: dict, module: str, src: str = "") -> dict:
         prog = f.get("program") or ""
         if prog and name and _only_in_union_type_test(prog, name):
             return {"kind": "unresolved-name", "cause": "union-member-bare-name"}
-        if name == types.MappingProxyType.__qualname__ and types.MappingProxyType.__module__ == "builtins" and not hasattr(builtins, name):
-            cause = "builtins-module-class"
-        else:
-            for c in classes:
-                if c.__module__.split(".")[0] == name and c.__module__ not in sys.modules:
-                    cause = "class-module-not-importable"
-                    break
+        for c in classes:
+            if c.__module__.split(".")[0] == name and c.__module__ not in sys.modules:
+                cause = "class-module-not-importable"
+                break
         return {"kind": "unresolved-name", "cause": cause, "name": name if cause != "class-module-not-importable" else "<module root>"}
     if kind == "own-SyntaxError":
         cause = "other"
